@@ -152,6 +152,10 @@ func ruleFramingReader(p *Program, r *Result) {
 			}
 		}
 		lenOK := false
+		// written out: uint32(h[8])<<24 | uint32(h[9])<<16 | uint32(h[10])<<8 | uint32(h[11])
+		if base, off, ok := be32OfOctets(lenVal); ok && off == 8 && (base == hbufBase(hbuf) || base == hbuf) {
+			lenOK = true
+		}
 		if call, ok := lenVal.(*ssa.Call); ok {
 			if f := call.Common().StaticCallee(); f != nil && f.Name() == "Uint32" && f.Pkg != nil && f.Pkg.Pkg.Path() == "encoding/binary" && strings.Contains(f.String(), "bigEndian") {
 				args := call.Common().Args
@@ -761,4 +765,68 @@ func faithfulReaderOver(p *Program, arg ssa.Value) ssa.Value {
 		}
 	}
 	return inner
+}
+
+// be32OfOctets: v is the big-endian combination of four consecutive octets of one array/slice,
+// uint32(b[k])<<24 | uint32(b[k+1])<<16 | uint32(b[k+2])<<8 | uint32(b[k+3]); returns b and k.
+func be32OfOctets(v ssa.Value) (ssa.Value, int64, bool) {
+	terms := map[int64]int64{} // shift -> index
+	var base ssa.Value
+	ok := true
+	var walk func(x ssa.Value)
+	walk = func(x ssa.Value) {
+		if bo, isB := x.(*ssa.BinOp); isB && (bo.Op == token.OR || bo.Op == token.ADD) {
+			walk(bo.X)
+			walk(bo.Y)
+			return
+		}
+		shift := int64(0)
+		if bo, isB := x.(*ssa.BinOp); isB && bo.Op == token.SHL {
+			c, okc := constInt(bo.Y)
+			if !okc {
+				ok = false
+				return
+			}
+			shift, x = c, bo.X
+		}
+		cv, isCv := x.(*ssa.Convert)
+		if !isCv {
+			ok = false
+			return
+		}
+		u, isU := cv.X.(*ssa.UnOp)
+		if !isU || u.Op != token.MUL {
+			ok = false
+			return
+		}
+		ia, isIA := u.X.(*ssa.IndexAddr)
+		if !isIA {
+			ok = false
+			return
+		}
+		k, okk := constInt(ia.Index)
+		if !okk {
+			ok = false
+			return
+		}
+		b := ia.X
+		if base != nil && base != b {
+			ok = false
+			return
+		}
+		base = b
+		if _, dup := terms[shift]; dup {
+			ok = false
+		}
+		terms[shift] = k
+	}
+	walk(v)
+	if !ok || len(terms) != 4 || base == nil {
+		return nil, 0, false
+	}
+	k0, has := terms[24]
+	if !has || terms[16] != k0+1 || terms[8] != k0+2 || terms[0] != k0+3 {
+		return nil, 0, false
+	}
+	return base, k0, true
 }
